@@ -122,10 +122,14 @@ def check(ctx):
                 rp_h = dict(how='bench-huge', name=name, n=len(x), draw_seed=rs_, lo=lo, hi=hi)
                 try:
                     y = float(fn(np.array(x, dtype=float)))
-                    ref = float(REF[name](x))
                 except Exception as ex:
                     C.issue('benchmark-raised', 'oracle', rp_h, error=repr(ex)[:100])
                     continue
+                try:
+                    ref = REF[name](x)
+                    ref = float('nan') if isinstance(ref, complex) else float(ref)
+                except (ValueError, ZeroDivisionError, OverflowError, TypeError):
+                    ref = float('nan')          # the scalar transcription is undefined there (e.g. a fractional power of a negative number)
                 if ref == ref and abs(ref) != float('inf') and not close(ref, y):
                     C.issue('not-the-documented-formula', 'oracle', rp_h, got=y, reference=ref)
                 C.case(key=(name, 'huge', len(x), x[0]), nontrivial=True, kind=f'{name}/huge')
@@ -338,9 +342,13 @@ def replay(prop, payload):
             x = [r_.uniform(payload['lo'], payload['hi']) for _ in range(payload['n'])]
         try:
             y = float(getattr(bm, name)(np.array(x, dtype=float)))
-            ref = float(REF[name](x))
         except Exception:
             return True
+        try:
+            ref = REF[name](x)
+            ref = float('nan') if isinstance(ref, complex) else float(ref)
+        except (ValueError, ZeroDivisionError, OverflowError, TypeError):
+            return False
         return bool(ref == ref and abs(ref) != float('inf') and not close(ref, y))
     name, x = payload['name'], payload['x']
     try:
